@@ -236,7 +236,35 @@ def validation_chain_rules(prog, chk, pid):
     exc_, rc = Exec(prog, policy=lambda e, f, d: False), None
     rc = exc_.run(cp)
     s = show(rc.ret, 12) if rc.ret is not None else ""
-    ok = rc.ret is not None and "== 0" in s and s.count("x") >= 3 and "y" in s
+    ok = rc.ret is not None
+    if ok:
+        # decided by evaluation: the returned term, for every curve y^2 = x^3 + ax + b over four small primes and every pair of integers in [-p, 2p), must be true
+        # exactly for the solutions of the equation modulo p -- however the comparison is spelled (difference reduced, both sides reduced, Horner form)
+        from bfsa.evalterm import NoEval, eval_term
+
+        leaves = {}
+        for t_ in subterms(unsnap(rc.ret)):
+            if t_.op == "param" and t_.args[0] in ("x", "y"):
+                leaves[t_.args[0]] = t_
+            elif t_.op == "attr" and t_.args[1].split("__")[-1] in ("a", "b", "p") and unsnap(t_.args[0]).op == "param":
+                leaves[t_.args[1].split("__")[-1]] = t_
+        ok = set(leaves) == {"x", "y", "a", "b", "p"}
+        if ok:
+            try:
+                for p_ in (5, 7, 11, 13):
+                    for a_ in (-3 % p_, 0, 1, p_ - 1):
+                        for b_ in (0, 1, 2, p_ - 2):
+                            for x_ in range(-p_, 2 * p_):
+                                for y_ in range(-p_, 2 * p_):
+                                    got = eval_term(rc.ret, {leaves["x"].uid: x_, leaves["y"].uid: y_, leaves["a"].uid: a_, leaves["b"].uid: b_, leaves["p"].uid: p_})
+                                    if bool(got) != ((y_ * y_ - (x_ ** 3 + a_ * x_ + b_)) % p_ == 0) or not isinstance(got, bool):
+                                        ok = False
+                                        s = "for p = %d, a = %d, b = %d the point (%d, %d) gives %r" % (p_, a_, b_, x_, y_, got)
+                                        raise StopIteration
+            except StopIteration:
+                pass
+            except (NoEval, TypeError, KeyError, ZeroDivisionError) as e_:
+                ok, s = False, "not evaluable: %s" % e_
     chk.require(ok, P("contains-point-equation"), cp.qualname, "(y*y - ((x*x + a)*x + b)) % p == 0", "%s:%d" % (cp.file, cp.lineno), "membership test is the short-Weierstrass equation modulo p", "contains_point is not the curve equation (%s)" % s[:80])
     # who may switch validation off
     offenders = []
@@ -339,8 +367,17 @@ def decoded_coordinates_rules(prog, chk, pid):
                 a = unsnap(c.args[1][0])
                 good = a.op == "slice" and unsnap(a.args[0]).op == "param" and unsnap(a.args[0]).args[0] == fi.params[0]
                 lo, hi = unsnap(a.args[1]), unsnap(a.args[2])
-                half = "raw_encoding_length // 2"
-                good = good and ((i == 0 and lo is NONE and half in show(hi, 4)) or (i == 1 and hi is NONE and half in show(lo, 4)))
+                def is_half(h):
+                    # half of the expected length, the second parameter: L // 2 or L >> 1
+                    h = unsnap(h)
+                    if h.op != "bin" or not is_const(unsnap(h.args[2])):
+                        return False
+                    l_ = unsnap(h.args[1])
+                    if not (l_.op == "param" and len(fi.params) > 1 and l_.args[0] in fi.params[1:]):
+                        return False
+                    return (h.args[0] == "FloorDiv" and cval(unsnap(h.args[2])) == 2) or (h.args[0] == "RShift" and cval(unsnap(h.args[2])) == 1)
+
+                good = good and ((i == 0 and lo is NONE and is_half(hi)) or (i == 1 and hi is NONE and is_half(lo)))
             ok = ok and good
     chk.require(ok, P("decode-raw-unmodified"), fi.qualname, "return string_to_number(data[:L//2]), string_to_number(data[L//2:])", "%s:%d" % (fi.file, fi.lineno),
                 "the decoded coordinates are the big-endian integers of the two halves, not reduced or rewritten", "raw decoding does not return the plain integers of the two halves (%s)" % (show(v, 6)[:120] if v is not None else None))
